@@ -10,7 +10,7 @@ oracle: the property itself evaluated on the real code with lattice geometry onl
 import itertools
 import json
 
-from harness.common import Corr, Oracle
+from harness.common import Corr, Oracle, Timeout, time_limit
 from harness.sexp import A, dumps, loads_all
 
 PID = 'C13'
@@ -19,7 +19,9 @@ RULE = ('random lattice layouts: d in 1..3, chains and grids up to 5 / 3x3 / 3x2
         'hygienic unique names in random alphabetical order, plain / all mapped (Mapping, IdentityMapping, AffineMapping, '
         'PolarMapping; own or shared mapping) / mixed, optional periodic closure of axes with >= 2 patches, random subset '
         'of the geometric connections in random order, random role flips (minus on the upper patch), random orientations '
-        '(int in 2D, triple in 3D, or omitted), patches by object / index / negative index, axis None in 1D; then '
+        '(int in 2D, triple in 3D, or omitted; ~30% of the explicit ones handed to Domain.join as numpy / sympy integers, '
+        'numpy arrays, lists / tuples of numpy ints, sympy Tuple - the specification keeps plain ints), ~30% of the 2D '
+        'layouts with mostly reversed (-1) connections on a thinned grid (L / T junctions), patches by object / index / negative index, axis None in 1D; then '
         'get_boundary on every patch and on the joined domain for all (axis, ext) incl. invalid ones, get_subdomain for '
         'random selections (str, tuples, full, domain name, unknown names, empty), corners in 2D, F(Omega) for plain '
         'layouts; ~15% malformed layouts (axis mismatch, bad ext/axis, index out of range, mixed refs, duplicated / '
@@ -27,9 +29,12 @@ RULE = ('random lattice layouts: d in 1..3, chains and grids up to 5 / 3x3 / 3x2
         'patch); histories: for ~30% of the valid layouts 1-3 further declarations over the SAME domain / patch / mapping '
         'names are built and observed right after it in the same process (other orientations, the same joined faces '
         'paired in another way, exchanged roles, other patch / connection order, one connection less, the first '
-        'declaration again; F(Omega) with the mapping of the first declaration or one of its own), each one checked '
+        'declaration again, the same orientations handed over in another representation; F(Omega) with the mapping of the '
+        'first declaration or one of its own), each one checked '
         'against its own declaration; fixed histories (rows, L, 2x2, 1D, 3D; plain '
-        'and mapped); non-trivial = the request involves at least one interface or raises; distinct by request line')
+        'and mapped); fixed orientation-form cases (2D / 3D, plain / mapped) and fixed junction layouts (L shapes at the four '
+        'corners of the middle patch, T junctions, all orientation signs, several name copies); every call into the '
+        'implementation runs under a time limit (a call that does not return is a failure); non-trivial = the request involves at least one interface or raises; distinct by request line')
 ASSUMPTIONS = [
     'sympde objects compare by NAME only (filed under C12): all layouts use unique patch and mapping names; the '
     'theorems carry the hypothesis that the patch names (and, for the mirror, the logical names) are pairwise different',
@@ -61,6 +66,44 @@ POOL = [a + b for a in 'ABCDEFGHKLMNPQRSTUVWXYZ' for b in ('', 'a', 'b', '1', '2
 MAPKINDS = {1: ['Mapping', 'IdentityMapping', 'AffineMapping'],
             2: ['Mapping', 'IdentityMapping', 'AffineMapping', 'PolarMapping'],
             3: ['Mapping', 'IdentityMapping', 'AffineMapping']}
+
+
+# How a declared orientation reaches Domain.join.  The layout keeps plain Python ints (the ground truth and what the
+# Lean model is given); `form` says in which representation the value is handed over: connectivity tables computed or
+# loaded with numpy give numpy integers / rows of integer arrays, symbolic preprocessing gives sympy Integers.  All of
+# them denote the same orientation (seeded change C13-9 dropped every orientation that was not a built-in int).
+ORNT_FORMS = {2: ['py', 'np-int64', 'np-int32', 'np-int8', 'np-sign', 'np-entry', 'sympy'],
+              3: ['py', 'np-array', 'np-row', 'np-int32', 'np-sign', 'np-tuple', 'np-list', 'list', 'sympy', 'sympy-Tuple']}
+
+
+def given_ornt(o, form):
+    """the orientation `o` (int in 2D, list of 3 ints in 3D) in the representation `form`"""
+    if o is None or form in (None, 'py'):
+        return tuple(o) if isinstance(o, list) else o
+    import numpy as np
+    import sympy
+    if isinstance(o, (list, tuple)):
+        o = [int(x) for x in o]
+        return {'np-array': lambda: np.array(o),
+                'np-row': lambda: np.array([[7, 7, 7], o])[1],                   # a row of an integer table
+                'np-int32': lambda: np.array(o, dtype=np.int32),
+                'np-sign': lambda: np.sign(np.array([3 * x for x in o])),
+                'np-tuple': lambda: tuple(np.array(o)),                            # tuple of numpy ints
+                'np-list': lambda: [np.int8(x) for x in o],
+                'list': lambda: list(o),
+                'sympy': lambda: tuple(sympy.Integer(x) for x in o),
+                'sympy-Tuple': lambda: sympy.Tuple(*o)}[form]()
+    return {'np-int64': lambda: np.int64(o), 'np-int32': lambda: np.int32(o), 'np-int8': lambda: np.int8(o),
+            'np-sign': lambda: np.sign(np.int64(3 * o)),
+            'np-entry': lambda: np.array([7, o])[1],                               # an entry of an integer array
+            'sympy': lambda: sympy.Integer(o)}[form]()
+
+
+def pick_form(rng, d, ornt):
+    """~30% of the explicit orientations are not handed over as built-in ints"""
+    if ornt is None or d not in ORNT_FORMS or rng.random() < 0.7:
+        return 'py'
+    return rng.choice(ORNT_FORMS[d][1:])
 
 
 def gen_layout(rng, serial, big, mode=None):
@@ -102,6 +145,11 @@ def gen_layout(rng, serial, big, mode=None):
     rng.shuffle(order)
     refmode = rng.choice(['obj', 'obj', 'idx', 'idx', 'negidx'])
     keep = rng.choice([1.0, 1.0, 0.8, 0.5, 0.25])
+    # junction-rich 2D layouts: a thinned grid (L shapes, T junctions: a vertex shared by >= 3 patches on an open
+    # chain of corners) whose connections are mostly reversed
+    junction = d == 2 and len(idxs) >= 3 and rng.random() < 0.3
+    if junction:
+        keep = rng.choice([0.8, 0.65, 0.5])
     conns = []
     for ix in idxs:
         for a in range(d):
@@ -118,9 +166,10 @@ def gen_layout(rng, serial, big, mode=None):
             if d == 1:
                 ornt = rng.choice([None, None, 1])
             elif d == 2:
-                ornt = rng.choice([None, 1, -1])
+                ornt = rng.choice([-1, -1, -1, 1, None] if junction else [None, 1, -1])
             else:
                 ornt = rng.choice([None, [1, 1, 1], [rng.choice([1, -1]) for _ in range(3)]])
+            form = pick_form(rng, d, ornt)
 
             def side(s):
                 pid, ax, ext = s
@@ -132,7 +181,10 @@ def gen_layout(rng, serial, big, mode=None):
                 else:
                     ref = ['idx', pos - len(order)]
                 return {'ref': ref, 'pid': pid, 'axis': None if (d == 1 and rng.random() < 0.2) else ax, 'ext': ext}
-            conns.append({'m': side(m), 'p': side(p), 'ornt': ornt})
+            cn = {'m': side(m), 'p': side(p), 'ornt': ornt}
+            if form != 'py':
+                cn['form'] = form
+            conns.append(cn)
     rng.shuffle(conns)
     return {'d': d, 'shape': list(shape), 'per': per, 'patches': patches, 'order': order, 'conns': conns,
             'name': 'Om%d' % serial, 'mode': mode, 'refmode': refmode, 'serial': serial, 'malformed': None}
@@ -229,7 +281,7 @@ def malform(rng, spec):
 # as any other layout: the result of Domain.join and of every observer is a function of the declared
 # patches and connections, never of what was built before.
 
-HIST_KINDS = ['ornt', 'ornt', 'repair', 'repair', 'roles', 'order', 'subset', 'again']
+HIST_KINDS = ['ornt', 'ornt', 'repair', 'repair', 'roles', 'order', 'subset', 'again', 'form']
 
 
 def _reref(spec):
@@ -263,6 +315,10 @@ def variant(rng, spec, kind=None):
                 k = rng.randrange(3)
                 o[k] = -o[k]
                 c['ornt'] = None if o == [1, 1, 1] and rng.random() < 0.5 else o
+            if c['ornt'] is None:
+                c.pop('form', None)
+            elif 'form' not in c and rng.random() < 0.3:
+                c['form'] = rng.choice(ORNT_FORMS[d][1:])
     elif kind == 'repair':
         # the same joined faces paired in another way (plus sides of two connections of one axis exchanged)
         ax = lambda s: s['axis'] or 0
@@ -296,6 +352,13 @@ def variant(rng, spec, kind=None):
         conns.pop(rng.randrange(len(conns)))
     elif kind == 'again':
         pass
+    elif kind == 'form':
+        # the same declaration, the orientations handed over in another representation
+        cands = [c for c in conns if c['ornt'] is not None and d in ORNT_FORMS]
+        if not cands:
+            return None
+        for c in rng.sample(cands, rng.randint(1, len(cands))):
+            c['form'] = rng.choice([f for f in ORNT_FORMS[d] if f != c.get('form', 'py')])
     else:
         return None
     v['hist'] = kind
@@ -361,7 +424,7 @@ class Build:
         for c in spec['conns']:
             cn = [self.side(c['m']), self.side(c['p'])]
             if c['ornt'] is not None:
-                cn.append(tuple(c['ornt']) if isinstance(c['ornt'], list) else c['ornt'])
+                cn.append(given_ornt(c['ornt'], c.get('form')))
             self.conns.append(tuple(cn))
 
     def side(self, s):
@@ -487,11 +550,73 @@ def corners_canon_model(s):
     return [list(g) for g in sorted(set(tuple(g) for g in out))]
 
 
-def call(f):
+class Skipped(Exception):
+    pass
+
+
+class Guard:
+    """time limit around every call into the implementation.  The calls made here take milliseconds (the slowest,
+    F(Omega) of a 3x3x2 layout, well under a second); a call that has not returned after LIMIT seconds is reported as
+    a failure of its own (seeded change C13-10 made get_shared_corners loop forever on some layouts and the check
+    hung).  After the first timeout of a kind of call the limit drops to AFTER seconds, after MAX timeouts further
+    calls of that kind are skipped (counted), so that a diverging implementation costs at most ~30 s per kind."""
+    LIMIT, AFTER, MAX = 20.0, 3.0, 4
+
+    def __init__(self):
+        self.timeouts = {}
+        self.skipped = {}
+
+    def reset(self):
+        self.timeouts.clear()
+        self.skipped.clear()
+
+    def limit(self, what):
+        return self.LIMIT if not self.timeouts.get(what) else self.AFTER
+
+    def run(self, what, f):
+        """f() under the limit; raises Timeout(seconds) / Skipped"""
+        n = self.timeouts.get(what, 0)
+        if n >= self.MAX:
+            self.skipped[what] = self.skipped.get(what, 0) + 1
+            raise Skipped(what)
+        sec = self.limit(what)
+        try:
+            with time_limit(sec):
+                return f()
+        except Timeout:
+            self.timeouts[what] = n + 1
+            raise Timeout(sec)
+
+
+GUARD = Guard()
+WHAT = {'join': 'Domain.join', 'gbp': 'patch.get_boundary', 'gbd': 'domain.get_boundary', 'sub': 'get_subdomain',
+        'corners': 'get_shared_corners', 'map': 'F(Omega)'}
+
+
+def describe(spec):
+    """the layout in one line: patches in the order given to Domain.join and the declared connections"""
+    nm = lambda pid: ('%s(%s)' % (spec['patches'][pid]['map'][1], spec['patches'][pid]['lname'])
+                      if spec['patches'][pid]['map'] else spec['patches'][pid]['lname'])
+    cs = []
+    for c in spec['conns']:
+        x = '((%s,%s,%s),(%s,%s,%s)' % (nm(c['m']['pid']), c['m']['axis'], c['m']['ext'], nm(c['p']['pid']), c['p']['axis'], c['p']['ext'])
+        if c['ornt'] is not None:
+            x += ',%s' % (tuple(c['ornt']) if isinstance(c['ornt'], list) else c['ornt'],)
+            if c.get('form', 'py') != 'py':
+                x += ' as %s' % c['form']
+        cs.append(x + ')')
+    return 'Domain.join([%s], [%s])' % (', '.join(nm(i) for i in spec['order']), ', '.join(cs))
+
+
+def call(f, what='call'):
     try:
-        return ('ok', f())
+        return ('ok', GUARD.run(what, f))
     except RecursionError:
         raise
+    except Skipped:
+        return ('skipped', what)
+    except Timeout as e:
+        return ('err', 'Timeout: %s did not return within %g s' % (WHAT.get(what, what), e.args[0]))
     except Exception as e:       # noqa
         return ('err', type(e).__name__)
 
@@ -583,6 +708,7 @@ def correspondence(ctx):
     from sympy.core.cache import clear_cache
     c = Corr()
     del _DISAGREE_SPECS[:]
+    GUARD.reset()
     t = T()
     nlay = 1500 if ctx.thorough else 110
     cases = []
@@ -596,25 +722,25 @@ def correspondence(ctx):
         if spec['malformed']:
             c.count('malformed:' + spec['malformed'])
         b = Build(spec)
-        r = call(b.join)
+        r = call(b.join, 'join')
         D = r[1] if r[0] == 'ok' else None
         impl = ('ok', dom_sexp(D, t)) if D is not None else r
         cases.append(('join', 'C13 join ' + layout_sexp(spec), impl, spec))
         for kind, line, thunk in queries(ctx.rng, spec, b, D, t, ctx.thorough):
-            cases.append((kind, line, call(thunk), spec))
+            cases.append((kind, line, call(thunk, kind), spec))
         # histories: the same names declared in another way, built and observed right after (same process,
         # caches as they are); the model is a pure function of the declaration
         if not spec['malformed'] and ctx.rng.random() < 0.3:
             for v in gen_history(ctx.rng, spec, ctx.rng.randint(1, 2)):
                 c.count('history:' + v['hist'])
                 b = Build(v)
-                r = call(b.join)
+                r = call(b.join, 'join')
                 D = r[1] if r[0] == 'ok' else None
                 impl = ('ok', dom_sexp(D, t)) if D is not None else r
                 cases.append(('join', 'C13 join ' + layout_sexp(v), impl, v))
                 for kind, line, thunk in queries(ctx.rng, v, b, D, t, ctx.thorough):
                     if kind != 'gbp':
-                        cases.append((kind, line, call(thunk), v))
+                        cases.append((kind, line, call(thunk, kind), v))
         if i % 50 == 49:
             clear_cache()
     # the Lean definition of "the geometric connections of a grid" (Grid.conns, used by grid_connections_ok
@@ -636,6 +762,10 @@ def correspondence(ctx):
                 exp.append(['P%d_%d_%d' % ix, a, 1, 'P%d_%d_%d' % tuple(jx), a, -1])
         line = 'C13 gridconns %d %d %d %d (%s)' % (d, shape[0], shape[1], shape[2], ' '.join('true' if x else 'false' for x in per))
         cases.append(('gridconns', line, ('ok', exp), None))
+    for x in cases:
+        if x[2][0] == 'skipped':
+            c.count('skipped-after-timeouts:' + x[0])
+    cases = [x for x in cases if x[2][0] != 'skipped']
     outs = ctx.driver.run([x[1] for x in cases])
     for (kind, line, impl, spec), out in zip(cases, outs):
         c.evaluations += 1
@@ -673,7 +803,8 @@ def correspondence(ctx):
                 if impl_s.startswith('ok '):
                     c.count('join:ifaces:%d' % min(len(loads_all(impl_s[3:])[0][1][4]) - 1, 12))
         if not agree:
-            c.disagreements.append({'input': line, 'impl': impl_s, 'model': out, 'note': kind})
+            c.disagreements.append({'input': line, 'impl': impl_s, 'model': out,
+                                    'note': kind if spec is None else '%s on %s' % (kind, describe(spec))})
             if spec is not None and spec not in _DISAGREE_SPECS:
                 _DISAGREE_SPECS.append(spec)
         if nontrivial:
@@ -726,15 +857,33 @@ def face_points(spec, b, key):
     return None
 
 
+def guarded(o, what, f, tag, spec, **extra):
+    """f() under the time limit of GUARD: (True, value), or (False, None) after reporting the timeout as a failure
+    (or counting the call as skipped once this kind of call has timed out MAX times); exceptions of f pass through"""
+    try:
+        return True, GUARD.run(what, f)
+    except Skipped:
+        o.count('skipped-after-timeouts:' + what)
+        return False, None
+    except Timeout as e:
+        det = dict(extra)
+        det['spec'] = spec
+        o.fail('%s-timeout:%s' % (what, tag), '%s did not return within %g s (a call that normally takes milliseconds) on %s'
+               % (WHAT[what], e.args[0], describe(spec)), **det)
+        return False, None
+
+
 def check_layout(o, spec, t, tag):
     """evaluates the property on one valid layout; returns the joined domain"""
     b = Build(spec)
     d = spec['d']
     det = {'spec': spec}
     try:
-        D = b.join()
+        ok, D = guarded(o, 'join', b.join, tag, spec)
     except Exception as e:
-        o.fail('join-raises:' + tag, 'Domain.join raised %s on a valid lattice layout' % type(e).__name__, error=repr(e), **det)
+        o.fail('join-raises:' + tag, 'Domain.join raised %s on a valid lattice layout: %s' % (type(e).__name__, describe(spec)), error=repr(e), **det)
+        return None, b
+    if not ok:
         return None, b
     pids = list(dict.fromkeys(spec['order']))
     pn = [b.pname(i) for i in pids]
@@ -788,7 +937,7 @@ def check_layout(o, spec, t, tag):
         ok = len(hits) == 1 and hits[0][2] == orn and (hits[0][:2] == (m, p) or swapped_ok)
         if not ok:
             o.fail('declared:%s:%s|%s' % (tag, m, p), 'declared connection %s -- %s (ornt %s) does not appear as exactly one '
-                   'interface with these faces and this orientation' % (m, p, orn), hits=hits, got=got, **det)
+                   'interface with these faces and this orientation in %s; interfaces built: %s' % (m, p, orn, describe(spec), got), hits=hits, got=got, **det)
             break
     for i in ifs:
         if str(i.name) != '%s|%s' % (fkey(i.minus)[0], fkey(i.plus)[0]) or int(i.axis) != fkey(i.minus)[1]:
@@ -841,7 +990,9 @@ def check_lookup(o, spec, b, D, t, tag):
         for a in range(d):
             for e in (-1, 1):
                 try:
-                    f = P.get_boundary(axis=a, ext=e)
+                    ok, f = guarded(o, 'gbp', lambda: P.get_boundary(axis=a, ext=e), tag, spec)
+                    if not ok:
+                        return
                     got = (fkey(f), str(f.name))
                 except Exception as ex:
                     got = type(ex).__name__
@@ -851,7 +1002,8 @@ def check_lookup(o, spec, b, D, t, tag):
                     return
         for a, e in ((d, 1), (0, 0), (0, 2)):
             try:
-                P.get_boundary(axis=a, ext=e)
+                if not guarded(o, 'gbp', lambda: P.get_boundary(axis=a, ext=e), tag, spec)[0]:
+                    return
                 o.fail('get_boundary-accepts:%s:%d,%d' % (tag, a, e), 'patch.get_boundary accepted the non-existent face (axis=%d, ext=%d)' % (a, e), **det)
             except ValueError:
                 pass
@@ -864,7 +1016,10 @@ def check_lookup(o, spec, b, D, t, tag):
         for e in (-1, 1):
             cands = [f for f in bnd if f[1] == a and f[2] == e]
             try:
-                got = fkey(D.get_boundary(axis=a, ext=e))
+                ok, got = guarded(o, 'gbd', lambda: D.get_boundary(axis=a, ext=e), tag, spec)
+                if not ok:
+                    return
+                got = fkey(got)
             except ValueError:
                 got = None
             except Exception as ex:
@@ -880,7 +1035,9 @@ def check_subdomain(o, spec, b, D, t, sel, tag):
     o.count('check:subdomain')
     pids = list(dict.fromkeys(spec['order']))
     try:
-        S = D.get_subdomain(tuple(sel))
+        ok, S = guarded(o, 'sub', lambda: D.get_subdomain(tuple(sel)), '%s:%s' % (tag, '+'.join(sel)), spec, selection=list(sel))
+        if not ok:
+            return
     except Exception as e:
         o.fail('subdomain-raises:%s:%s' % (tag, '+'.join(sel)), 'get_subdomain(%s) raised %s: %s' % (tuple(sel), type(e).__name__, e), **det)
         return
@@ -933,14 +1090,26 @@ def check_corners(o, spec, b, D, t, tag):
     o.count('check:corners')
     det = {'spec': spec}
     try:
-        got = corners_canon_real(D.get_shared_corners(), t)
+        ok, got = guarded(o, 'corners', D.get_shared_corners, tag, spec)
+        if not ok:
+            return
+        got = corners_canon_real(got, t)
     except Exception as e:
-        o.fail('corners-raises:' + tag, 'get_shared_corners raised %s: %s' % (type(e).__name__, e), **det)
+        o.fail('corners-raises:' + tag, 'get_shared_corners raised %s: %s on %s' % (type(e).__name__, e, describe(spec)), **det)
         return
     exp = expected_corners(spec, b)
     if got != exp:
-        o.fail('corners:' + tag, 'the corner groups are not the sets of patch corners identified through the declared interfaces',
-               got=got, expected=exp, **det)
+        o.fail('corners:' + tag, 'the corner groups are not the sets of patch corners identified through the declared interfaces of %s: '
+               'got %s, expected %s' % (describe(spec), got, exp), got=got, expected=exp, **det)
+        return
+    # the property `corners` (memoised in _corners) answers the same groups
+    try:
+        ok, got2 = guarded(o, 'corners', lambda: D.corners, tag + ':property', spec)
+        if ok and corners_canon_real(got2, t) != exp:
+            o.fail('corners-property:' + tag, 'domain.corners differs from get_shared_corners() on %s' % describe(spec),
+                   got=corners_canon_real(got2, t), expected=exp, **det)
+    except Exception as e:
+        o.fail('corners-raises:' + tag, 'domain.corners raised %s: %s on %s' % (type(e).__name__, e, describe(spec)), **det)
 
 
 def check_mapped(o, spec, b, D, t, tag):
@@ -950,7 +1119,9 @@ def check_mapped(o, spec, b, D, t, tag):
     d = spec['d']
     G = outer_mapping_name(spec)
     try:
-        X = get_mapping(t, 'Mapping', G, d)(D)
+        ok, X = guarded(o, 'map', lambda: get_mapping(t, 'Mapping', G, d)(D), tag, spec)
+        if not ok:
+            return
     except Exception as e:
         o.fail('mapped-raises:' + tag, 'F(Omega) raised %s: %s' % (type(e).__name__, e), **det)
         return
@@ -1082,6 +1253,99 @@ def fixed_histories():
     return out
 
 
+def _fixed_layout(d, cells, decls, serial, tok, name, mapped=False, forms=None):
+    """cells: lattice positions of the patches; decls: ((cell, axis, ext), (cell, axis, ext), ornt) by position"""
+    ps = []
+    for ix in cells:
+        ix = tuple(ix) + (0,) * (3 - len(ix))
+        n = '%s%d%d%dj%d' % ((tok,) + ix + (serial,))
+        ps.append({'lname': n, 'dim': d, 'ix': list(ix), 'lo': list(ix[:d]), 'hi': [x + 1 for x in ix[:d]],
+                   'map': ('Mapping', 'W' + n) if mapped else None})
+    pid = {tuple(p['ix'][:d]): i for i, p in enumerate(ps)}
+    cs = []
+    for k, ((mi, ma, me), (pi, pa, pe), orn) in enumerate(decls):
+        c = {'m': {'ref': ['obj', pid[tuple(mi)]], 'pid': pid[tuple(mi)], 'axis': ma, 'ext': me},
+             'p': {'ref': ['obj', pid[tuple(pi)]], 'pid': pid[tuple(pi)], 'axis': pa, 'ext': pe}, 'ornt': orn}
+        if forms and forms[k] not in (None, 'py') and orn is not None:
+            c['form'] = forms[k]
+        cs.append(c)
+    shape = [max(p['ix'][k] for p in ps) + 1 for k in range(3)]
+    return {'d': d, 'shape': shape, 'per': [False] * 3, 'patches': ps, 'order': list(range(len(ps))), 'conns': cs,
+            'name': name, 'mode': 'mapped' if mapped else 'plain', 'refmode': 'obj', 'serial': 900200 + serial, 'malformed': None}
+
+
+def fixed_forms():
+    """orientations handed to Domain.join as numpy / sympy integers (2D) and numpy arrays / tuples and lists of numpy
+    or sympy integers / sympy Tuple (3D): the declared orientation must be the recorded one - on the interface, on its
+    logical twin, in F(Omega), in get_subdomain and in the corner groups.  [(stable name, layout)]"""
+    out = []
+    serial = 0
+    for mapped in (False, True):
+        sfx = '-mapped' if mapped else ''
+        for form in ORNT_FORMS[2][1:]:
+            serial += 1
+            # row A|B reversed, C on top of B with the default-valued orientation in the same representation,
+            # D on top of A reversed (built-in int): corner groups of two and three corners
+            decls = [(((0, 0), 0, 1), ((1, 0), 0, -1), -1), (((1, 0), 1, 1), ((1, 1), 1, -1), 1), (((0, 0), 1, 1), ((0, 1), 1, -1), -1)]
+            out.append(('ornt-form-2d-%s%s' % (form, sfx),
+                        _fixed_layout(2, [(0, 0), (1, 0), (1, 1), (0, 1)], decls, serial, 'Qa', 'OmForm%d' % serial, mapped, [form, form, 'py'])))
+        for form, orn in zip(ORNT_FORMS[3][1:], ([-1, 1, -1], [1, -1, 1], [1, 1, -1], [-1, -1, 1], [1, -1, -1], [-1, 1, 1], [1, -1, 1], [-1, -1, -1], [1, 1, -1])):
+            serial += 1
+            decls = [(((0, 0, 0), 2, 1), ((0, 0, 1), 2, -1), orn), (((0, 0, 0), 0, 1), ((1, 0, 0), 0, -1), [1, 1, 1])]
+            out.append(('ornt-form-3d-%s%s' % (form, sfx),
+                        _fixed_layout(3, [(0, 0, 0), (0, 0, 1), (1, 0, 0)], decls, serial, 'Qb', 'OmForm%d' % serial, mapped, [form, form])))
+    return out
+
+
+def fixed_junctions():
+    """2D layouts with a vertex shared by >= 3 patches on an OPEN chain of corners (L shapes around each of the four
+    corners of the middle patch, T junctions = a 2x2 block with one of its four connections left out), every sign
+    pattern of the orientations, minus / plus roles both ways, plain and mapped.  Which corner of a chain
+    get_shared_corners starts from depends on the iteration order of a set of name-hashed objects, so every layout
+    comes in several copies that differ in the patch names only: the chain is then entered from an end (forward walk
+    only) in some copies and from a middle corner (forward, then backward across the interfaces) in others.
+    [(stable name, layout)]"""
+    out = []
+    serial = 100
+    sg = lambda o: '+' if o == 1 else '-'
+    for copy in range(3):
+        tok = 'J' + 'abc'[copy]
+        # L shapes: A in the middle, B beside it along axis 0 (at side e0), C beside it along axis 1 (at side e1)
+        for e0, e1 in itertools.product((1, -1), repeat=2):
+            for o0, o1 in itertools.product((1, -1), repeat=2):
+                serial += 1
+                mapped = (serial + copy) % 3 == 0
+                A, B, C = (1, 1), (1 + e0, 1), (1, 1 + e1)
+                c0 = ((A, 0, e0), (B, 0, -e0), o0)
+                c1 = ((A, 1, e1), (C, 1, -e1), o1)
+                if (serial + e0) % 2:          # roles exchanged on one of the two connections
+                    c1 = (c1[1], c1[0], c1[2])
+                out.append(('junction-L%s%s-%s%s-%d' % (sg(e0), sg(e1), sg(o0), sg(o1), copy),
+                            _fixed_layout(2, [A, B, C], [c0, c1], serial, tok, 'OmJ%d' % serial, mapped)))
+        # T junctions: 2x2 block, connection number `skip` left out (the centre vertex is an open chain of 4 corners)
+        block = [(((0, 0), 0, 1), ((1, 0), 0, -1)), (((1, 0), 1, 1), ((1, 1), 1, -1)),
+                 (((0, 1), 0, 1), ((1, 1), 0, -1)), (((0, 0), 1, 1), ((0, 1), 1, -1))]
+        for skip in range(4):
+            for signs in ((-1, -1, -1), (1, -1, 1), (-1, 1, -1), (1, 1, -1), (-1, 1, 1)):
+                serial += 1
+                mapped = (serial + copy) % 3 == 0
+                decls = [bl + (o,) for bl, o in zip([x for k, x in enumerate(block) if k != skip], signs)]
+                if serial % 2:
+                    decls[1] = (decls[1][1], decls[1][0], decls[1][2])
+                if copy == 1:
+                    decls.reverse()
+                out.append(('junction-T%d-%s-%d' % (skip, ''.join(sg(o) for o in signs), copy),
+                            _fixed_layout(2, [(0, 0), (1, 0), (0, 1), (1, 1)], decls, serial, tok, 'OmJ%d' % serial, mapped)))
+    return out
+
+
+def run_light(o, spec, t, tag):
+    """join (partition, declared interfaces, logical mirror) and the corner groups only"""
+    D, b = check_layout(o, spec, t, tag)
+    if D is not None and spec['d'] == 2 and spec['conns']:
+        check_corners(o, spec, b, D, t, tag)
+
+
 def run_checks(o, rng, spec, t, tag, sels=None, prelude=True):
     if prelude:
         # a layout of a history: first build and observe what was built before it (replay, failing-input search)
@@ -1114,9 +1378,19 @@ def oracle(ctx, factor, seeds):
     from sympy.core.cache import clear_cache
     o = Oracle()
     t = T()
+    GUARD.reset()
     for name, spec, sels in fixed_specs():
         o.evaluations += 1
         run_checks(o, ctx.rng, spec, t, 'fixed:' + name, sels or None)
+    for name, spec in fixed_junctions():
+        o.evaluations += 1
+        o.count('fixed:junction')
+        run_light(o, spec, t, 'fixed:' + name)
+    for name, spec in fixed_forms():
+        o.evaluations += 1
+        o.count('fixed:ornt-form')
+        nm = [('%s(%s)' % (q['map'][1], q['lname']) if q['map'] else q['lname']) for q in spec['patches']]
+        run_checks(o, ctx.rng, spec, t, 'fixed:' + name, [nm[:2], nm[1:]])
     for name, specs in fixed_histories():
         for k, spec in enumerate(specs):
             o.evaluations += 1
@@ -1158,6 +1432,7 @@ def replay(ctx, path):
         return 1
     o = Oracle()
     t = T()
+    GUARD.reset()
     sel = (d.get('detail') or {}).get('selection')
     run_checks(o, ctx.rng, spec, t, 'replay', [sel] if sel else None)
     for f in o.failures:
